@@ -28,6 +28,12 @@ PROPERTIES = {
         "thorough": [{"match": "VerifH_c04_.*", "timeout": 2400}],
         "bounds": {}, "outside": [], "assumptions": [],
     },
+    "C05": {
+        "level": "model_checking",
+        "quick": [{"match": "VerifH_c05_.*", "timeout": 600}],
+        "thorough": [{"match": "VerifH_c05_.*", "timeout": 2400}],
+        "bounds": {}, "outside": [], "assumptions": [],
+    },
     "C18": {
         "level": "model_checking",
         "quick": [{"match": "VerifH_c18_.*", "timeout": 300}],
